@@ -778,3 +778,37 @@ package core
 //@   requires rb.MaxPricePerUnit != nil
 //@   callsite Concat@*: four_parts_amount_in_eight_bytes: len($0) == 4 && len($0[0]) == 1 && len($0[2]) == 8 && len($0[3]) <= 32
 //@   callsite Concat@*: every_bit_of_the_price_committed: len($0) == 4 && (len($0[3]) == 32 || (len($0[3]) == 16 && (forall k int :: 0 <= k && k < 16 ==> maxPriceBytes[k] == 0)))
+
+// ---- what a read hands out outlives the read (C07) --------------------------------------------------
+// The bytes handed to a typed bucket's decoder belong to the storage engine and are only valid while
+// the read callback runs (Pebble recycles them). The one extractor that returns the WHOLE block blob -
+// consumed later by iterators (revert, pruner, history migration) - therefore returns a copy of the
+// bytes: what it returns shares no memory with what it was given.
+//@ func (extractAll).extract
+//@   props C07
+//@   arith int
+//@   coretypes
+//@   requires b != nil
+//@   ensures a_copy_of_the_bytes: len(b.Data) > 0 ==> fresh(result0.Data) && len(result0.Data) == len(b.Data)
+//@   ensures byte_for_byte: forall k int :: 0 <= k && k < len(b.Data) ==> result0.Data[k] == b.Data[k]
+
+// ---- a stored class has ONE layout (C07) -------------------------------------------------------------
+// Bucket Class is read and written by three accessor families (core, core/state, the migrations) and by
+// every existing database: a class is the encoder's rendering of the *DeclaredClassDefinition (a byte
+// string wrapping deployment height and class), under ClassKey(hash) - written with exactly one
+// Marshal and one Put, read with one Get and Unmarshal into a *DeclaredClassDefinition.
+//@ extern func github.com/NethermindEth/juno/encoder.Marshal
+//@   logged as EncMarshal
+//@ extern func github.com/NethermindEth/juno/db.ClassKey
+//@   logged as ClassKeyOf
+//@ extern func github.com/NethermindEth/juno/db.KeyValueWriter.Put
+//@   logged as RawPut
+//@ func WriteClass
+//@   props C07
+//@   arith int
+//@   nosafe
+//@   assigns calls_EncMarshal, arg_EncMarshal_v, calls_ClassKeyOf, arg_ClassKeyOf_classHash, calls_RawPut, arg_RawPut_key, arg_RawPut_value
+//@   callsite Marshal@*: the_declared_definition_itself: istype($0, *DeclaredClassDefinition) && cast($0, *DeclaredClassDefinition) == class
+//@   callsite ClassKey@*: under_its_hash: $0 == classHash
+//@   callsite Put@*: what_the_encoder_rendered: $0 == w && calls_EncMarshal == old(calls_EncMarshal) + 1 && calls_ClassKeyOf == old(calls_ClassKeyOf) + 1
+//@   ensures one_rendering_one_write: result == nil ==> calls_EncMarshal == old(calls_EncMarshal) + 1 && calls_RawPut == old(calls_RawPut) + 1
